@@ -900,7 +900,12 @@ func (env *Environment) runTasksAsHooks(hooksToTrigger task.Tasks) (errorMap map
 						continue
 					}
 
-					hookTimers[tid].Stop()
+					timer, hasTimer := hookTimers[tid]
+					if !hasTimer {
+						// this hook has timed out already and was reported as such, its late report changes nothing
+						continue
+					}
+					timer.Stop()
 					delete(hookTimers, tid)
 
 					if evt.ExitCode != 0 {
